@@ -318,6 +318,33 @@ def gen_case(rng):
     return text, ff, opts, feats
 
 
+def sweep_cases(rng):
+    """every pre-named protonation state at the first and at the last position of a chain, and
+    disulfide-bonded cysteines (terminal ones included) from the C13 generator"""
+    from props import c13
+
+    k = 0
+    for t, states in STATE_NAMES.items():
+        for st in states:
+            for pos in (0, -1):
+                for _ in range(40):
+                    _f, res = G.window(rng, 3, must_have=t)
+                    if res[pos][0].resn == t:
+                        break
+                else:
+                    continue
+                for a in res[pos]:
+                    a.resn = st
+                G.set_chain(res, "A", 1)
+                ff = FFS[k % len(FFS)]
+                k += 1
+                yield G.to_pdb([res]), ff, [f"--ff={ff}", "--whitespace", "--keep-chain"], {"state:" + st, "terminal-first" if pos == 0 else "terminal-last"}
+    for _ in range(8):
+        text, opts, f = c13.gen_case(rng)
+        ff = next(o for o in opts if o.startswith("--ff="))[5:]
+        yield text, ff, opts, {"disulfide:" + ",".join(sorted(x for x in f if x in ("bonded", "third", "edge-in", "edge-out", "far", "free")))}
+
+
 def enc_info(i):
     flags = "".join("1" if i[k] else "0" for k in ("n", "c", "5", "3", "ss"))
     return ",".join([hexs(i["cls"]), hexs(i["name"]), "+".join(hexs(p) for p in i["patches"]), flags, "+".join(hexs(a) for a in i["atoms"])])
@@ -381,15 +408,15 @@ def run(ctx: Ctx):
     rng = ctx.rng
     ctx.extra["rule"] = (
         "(a) six built-in maps exhaustively + every names pattern x every canonical residue name; (b) generated parameter/.names pairs; "
-        "(c) peptide windows (2-12 residues, every residue type forced in turn, pre-named states, two chains, waters) x force field x options through the real pipeline; "
+        "(c) every pre-named protonation state at the first and last chain position, disulfide pairs (terminal cysteines included), then peptide windows (2-12 residues, every residue type forced in turn, pre-named states, two chains, waters) x force field x options through the real pipeline; "
         "a case is (kind, feature set / ff / residue lookup names); distinct counts distinct tuples"
     )
     tie_builtin(ctx)
     tie_pairs(ctx, ctx.scale(150, 4000))
     n = ctx.scale(40, 1500)
     seen = set()
-    for ci in range(n):
-        text, ff, opts, feats = gen_case(rng)
+    cases = list(sweep_cases(rng)) + [gen_case(rng) for _ in range(n)]
+    for ci, (text, ff, opts, feats) in enumerate(cases):
         r = G.run_pipeline(text, opts)
         ctx.evaluations += 1
         ctx.count("pipeline-outcome", r.status)
